@@ -51,6 +51,9 @@ func (f FnGen) record(i int, keyKind int) jv.Val {
 		key = jv.VStr(Pick(t, "skey", []string{"a", "b", "ab", "é", "z", "日", "😀", "", "A", "aa"}))
 	case 2:
 		key = Scalar(t)
+	case 4: // numbers that only an exact comparison tells apart
+		g := Pick(t, "closegroup", CloseNums)
+		key = jv.VNumText(Pick(t, "closekey", g))
 	default:
 		key = jv.VNull()
 	}
@@ -110,8 +113,13 @@ func (f FnGen) Val(kind string, subject string) jv.Val {
 	case "arr-num":
 		n := rapid.IntRange(0, 5).Draw(t, "n")
 		a := make([]jv.Val, n)
+		close := Chance(t, "closenums", 1, 8)
 		for i := range a {
-			a[i] = Num(t)
+			if close {
+				a[i] = jv.VNumText(Pick(t, "closenum", Pick(t, "closegroup", CloseNums)))
+			} else {
+				a[i] = Num(t)
+			}
 		}
 		if n > 0 && Chance(t, "spoil", 1, 8) {
 			a[rapid.IntRange(0, n-1).Draw(t, "at")] = Scalar(t)
@@ -137,7 +145,7 @@ func (f FnGen) Val(kind string, subject string) jv.Val {
 		if Chance(t, "long", 1, 6) {
 			n = rapid.IntRange(13, 30).Draw(t, "nlong")
 		}
-		kk := rapid.IntRange(0, 9).Draw(t, "keykind")
+		kk := rapid.IntRange(0, 10).Draw(t, "keykind")
 		switch {
 		case kk < 4:
 			kk = 0
@@ -145,8 +153,10 @@ func (f FnGen) Val(kind string, subject string) jv.Val {
 			kk = 1
 		case kk == 8:
 			kk = 2
-		default:
+		case kk == 9:
 			kk = 3
+		default:
+			kk = 4
 		}
 		a := make([]jv.Val, n)
 		for i := range a {
